@@ -73,10 +73,6 @@ Definition pv_term (v : pyval term) : term :=
   | PCont KTuple (Fin l) => TCall (TVar "tuple" 0) l [] []
   | PCont _ _ => TOpaque
   end.
-Definition o_func (tbl : tbl_t) (fname : string) (args : list (pyval term))
-           (kw : list (string * pyval term)) : term :=
-  via tbl (TCall (TVar fname 0) (map pv_term args) (map fst kw) (map (fun kv => pv_term (snd kv)) kw)).
-
 (* ------------------------------------------------------------------ observations of a stream *)
 (* an element operation that raises is tabulated as TLit "raise:<Exception>"; iteration
    stops there with that exception *)
@@ -85,6 +81,23 @@ Definition is_raise (t : term) : option string :=
   | TLit s => if String.prefix "raise:" s then Some s else None
   | _ => None
   end.
+Fixpoint first_raise (l : list term) : option string :=
+  match l with
+  | [] => None
+  | t :: r => match is_raise t with Some e => Some e | None => first_raise r end
+  end.
+
+(* the decorated function applied to its arguments; an argument whose own computation raised
+   (composition of two wrappers over a lazy container) passes the exception on *)
+Definition o_func (tbl : tbl_t) (fname : string) (args : list (pyval term))
+           (kw : list (string * pyval term)) : term :=
+  let a := map pv_term args in
+  let kv := map (fun kv => pv_term (snd kv)) kw in
+  match first_raise (a ++ kv) with
+  | Some e => TLit e
+  | None => via tbl (TCall (TVar fname 0) a (map fst kw) kv)
+  end.
+
 Fixpoint scan (l : list term) : list term * option string :=
   match l with
   | [] => ([], None)
@@ -190,11 +203,15 @@ Definition wobs_eqb (o : wobs) (m : wobs) : bool :=
 Definition wcont (k : ckind) (p : list term) (st : string) : wobs :=
   if is_eager k && String.prefix "raise:" st then WRaise (sdrop 6 st) else WCont k p st true.
 
+(* scalar in, scalar out; if the function raises on it, so does the call *)
+Definition wscalar (t : term) : wobs :=
+  match is_raise t with Some e => WRaise (sdrop 6 e) | None => WScalar t end.
+
 Definition wobs_of (cap : nat) (r : ewres term) : wobs :=
   match r with
   | ERaise e => WRaise e
   | EVal (PCont k vals) => let '(p, st) := finish (observe term cap vals) in wcont k p st
-  | EVal v => WScalar (pv_term v)
+  | EVal v => wscalar (pv_term v)
   end.
 
 Record wcase := WC {
@@ -217,7 +234,7 @@ Definition spec_ew_with (ename : string) (epos : option nat) (fn : string) (tbl 
     let call := spec_call term (o_func tbl fn) ename epos args kw in
     let '(p, st) := finish (spec_obs term cap (llen vals) (fun i => option_map call (lnth vals i))) in
     Some (wcont (spec_kind k) (if is_setlike k then dedup_t p else p) st)
-  | Some _ => Some (WScalar (o_func tbl fn args kw))
+  | Some _ => Some (wscalar (o_func tbl fn args kw))
   end.
 Definition holds_ew (c : wcase) : bool :=
   match spec_ew_with (w_ename c) (w_epos c) (w_fn c) (w_tbl c) (w_cap c) (w_args c) (w_kw c) with
